@@ -307,7 +307,11 @@ pub fn uppercase_identifier(input: Input<'_>) -> ParserResult<'_, &str> {
         ))),
         terminated(
             into_inner(recognize(one_of("ABCDEFGHIJKLMNOPQRSTUVWXYZ"))),
-            peek(is_not("abcdefghijklmnopqrstuvwxyz-")),
+            // the name ends here: neither a lower-case letter nor a hyphen follows (a comment, `--`, may)
+            peek(alt((
+                into_inner(tag(LINE_COMMENT)),
+                into_inner(is_not("abcdefghijklmnopqrstuvwxyz-")),
+            ))),
         ),
     ))
     .parse(input)
